@@ -48,6 +48,18 @@ func tupleVal(t *types.Tuple, vs []Val) Val {
 // call executes an SSA call instruction (also used for defer).
 func (fr *frame) call(cc *ssa.CallCommon, st *State, reach *string, instr ssa.Instruction) Val {
 	ex := fr.ex
+	if fr.c != nil && fr.c.Before != nil && ex.pure == 0 {
+		name := ""
+		if cc.IsInvoke() {
+			name = cc.Method.Name()
+		} else if f := cc.StaticCallee(); f != nil {
+			name = f.Name()
+		}
+		for _, cl := range fr.c.Before[name] {
+			g := fr.evalClause(cl, instr.Block(), st, nil)
+			ex.oblige(fr.label("before."+name+"."+cl.Label), "assert", cl.Props, imp(*reach, g), cl.Pos, cl.Text)
+		}
+	}
 	args := make([]Val, 0, len(cc.Args)+1)
 	if cc.IsInvoke() {
 		recv := fr.val(cc.Value)
@@ -512,7 +524,7 @@ func (ex *Exec) applyModifies(c *Contract, env map[string]Val, st *State) {
 }
 
 // ghostFramed: ghost variables whose modification must be declared (exclusive-writer facts rely on it).
-var ghostFramed = map[string]bool{"X|sendN": true, "X|sendLog": true, "X|sendClock": true}
+var ghostFramed = map[string]bool{"X|sendN": true, "X|sendLog": true, "X|sendClock": true, "X|isOpen": true, "X|closeN": true, "X|tcpDialed": true}
 
 type modLoc struct {
 	all  bool
@@ -726,10 +738,12 @@ func (fr *frame) frameGoals(st *State, only map[string]bool) []string {
 		env[p.Name()] = fr.args[i]
 	}
 	allowed := map[string][]string{} // key → refs ("" = all)
+	heapAll := false
 	for _, m := range fr.c.Modifies {
 		for _, loc := range ex.resolveModifies(fr.c, m, env, fr.entry) {
 			if loc.all {
-				return nil
+				heapAll = true // "*" covers the whole heap; framed ghost variables must still be listed
+				continue
 			}
 			allowed[loc.key] = append(allowed[loc.key], loc.ref)
 		}
@@ -749,6 +763,9 @@ func (fr *frame) frameGoals(st *State, only map[string]bool) []string {
 			continue
 		}
 		if kind == "X" && !ghostFramed[k] {
+			continue
+		}
+		if heapAll && kind != "X" {
 			continue
 		}
 		fin, ok := st.H[k]
